@@ -898,6 +898,14 @@ fn c18(st: &mut Stats, max: u32) -> Res {
         }
         frontier = next;
     }
+    // every single ASCII character in head position, tail position, and after the raw prefix (a class test that lets ONE extra
+    // character through - `-`, `$`, `.` - is invisible to class representatives)
+    for c in 0u8..128 {
+        let ch = c as char;
+        for w in [format!("{}", ch), format!("a{}", ch), format!("{}a", ch), format!("a{}b", ch), format!("r#{}", ch), format!("r#a{}", ch), format!("_{}_", ch)] {
+            words.push(leak(w));
+        }
+    }
     for w in &words {
         st.cases += 1;
         let want = spec_ident(w.as_bytes());
